@@ -26,6 +26,9 @@ def run(ctx, rep):
     pair_rules(ctx, facts, rep)
     eocd_rules(ctx, facts, rep)
     guard_rules(ctx, facts, rep)
+    # a large_file entry's local header: its declared extra length must account for the 20-byte ZIP64 record (local/central siblings)
+    from rules.C02 import sib_rules
+    sib_rules(ctx, facts, rep)         # reported as C08/C02-SIB
     writer_table(facts, rep, "C08-Z64REC", facts.one(r"^spec::Zip64CentralDirectoryEnd::write$"), "Z64EOCD", spec, c)
     writer_table(facts, rep, "C08-Z64REC", facts.one(r"^spec::Zip64CentralDirectoryEndLocator::write$"), "Z64LOC", spec, c)
     reader_table(facts, rep, "C08-Z64REC", facts.one(r"^spec::Zip64CentralDirectoryEnd::find_and_parse$"), "Z64EOCD", spec, c)
